@@ -901,6 +901,20 @@ CORPUS = [
                                                           ("move", ("shift", ("gv", "g"), ("f", 1), ("f", 1))),
                                                           ("move", ("shift", ("gv", "g"), ("f", -1), ("f", 2))), ("move", ("gv", "g"))]}],
      "args": [("from", [5], [0, 1])]},
+    # a set_loc while tones are on, to a grid of another shape, opens a new segment (it is not a move)
+    {"kernels": [{"name": "main", "params": [G], "body": [("set", ("gv", "g")), ("turn", True, ("ALL",), ("ALL",)),
+                                                          ("move", ("shift", ("gv", "g"), ("f", 1), ("f", 0))),
+                                                          ("set", ("from", [0, 1, 2], [5])),
+                                                          ("move", ("from", [0, 1, 4], [6])), ("turn", False, ("ALL",), ("ALL",))]}],
+     "args": [("from", [0, 1], [0, 1])]},
+    # a running position updated from its previous value in a loop and not read afterwards
+    {"kernels": [{"name": "main", "params": [G, ("n", "int", "int")],
+                  "body": [("set", ("gv", "g")), ("turn", True, ("ALL",), ("ALL",)), ("gassign", "p", ("gv", "g")), ("iassign", "c", ("i", 0)),
+                           ("for", "i", ("i", 0), ("v", "n"), [("iassign", "c", ("add", ("v", "c"), ("i", 1))),
+                                                               ("gassign", "p", ("shift", ("gv", "p"), ("f", Fraction(3, 2)), ("f", 0))),
+                                                               ("move", ("gv", "p"))]),
+                           ("turn", False, ("ALL",), ("ALL",))]}],
+     "args": [("from", [0, 1], [0, 1]), 3]},
     # constants of the spec, two of them zero (a present constant whose value is falsy)
     {"kernels": [{"name": "main", "params": [G], "body": [("set", ("gv", "g")), ("turn", True, ("ALL",), ("ALL",)),
                                                           ("move", ("shift", ("gv", "g"), ("fc", "f0"), ("fc", "fh"))),
